@@ -108,7 +108,7 @@ func NewHarness(cfg Config) *Harness {
 	}
 	m := NewModel(mq, cfg.Authenticator != "mockFailure")
 	if cfg.Authenticator == SelectiveAuth {
-		m.authFn = func(user string) bool { return user != "evil" }
+		m.authFn = selectiveOK
 	}
 	return &Harness{W: NewWorld(cfg), M: m, byName: map[string]*RawClient{},
 		localFn: map[string]*service.OnPublishFunc{}, localGot: map[string][]*refcodec.Packet{}}
@@ -217,7 +217,7 @@ func (h *Harness) Step(a Action) []Mismatch {
 		e := exp(exps, a.Client)
 		e.Comp = "acks"
 		e.Desc = "answer to CONNECT"
-		if !m.authOK(a.Opts.User) {
+		if !m.authOK(a.Opts.User, a.Opts.Pass) {
 			e.Must = []*refcodec.Packet{{Type: refcodec.CONNACK, ReturnCode: 4}}
 			e.MustClose = true
 			nc.open = false
